@@ -13,9 +13,9 @@ OBLIGATIONS = [
        variants=[{'ELEM': 4, 'PT': t} for t in (-1, 0, 1, 2, 4)] + [{'ELEM': 5}, {'ELEM': 6}, {'ELEM': 7}] + [{'ELEM': 8, 'TARGET': t} for t in (0, 1)],
        unwind=45, timeout=900, mem_gb=14, wrap_files=True, nvec=8, flags=['--max-field-sensitivity-array-size', '400']),
     Ob('reader_sequences', 'C03/rd_seq.c', [RG], shrink=[(65537, 96, set())], rename=RN,
-       what='read_gds on two elements (or two cells) in sequence: the second TEXT / SREF / PATH / BOUNDARY (also a PATH after a TEXT that carries PATHTYPE and WIDTH, an SREF after an AREF), which carries no STRANS, MAG, ANGLE, PRESENTATION, PATHTYPE, WIDTH, extensions or properties, loads with the defaults of the specification whatever the element before it carried',
+       what='read_gds on two elements (or two cells) in sequence: the second TEXT / SREF / PATH / BOUNDARY (also a PATH after a TEXT that carries PATHTYPE and WIDTH, an SREF after an AREF, a TEXT after an SREF and an SREF after a TEXT), which carries no STRANS, MAG, ANGLE, PRESENTATION, PATHTYPE, WIDTH, extensions or properties, loads with the defaults of the specification whatever the element before it carried',
        bound='two elements per file (same cell, or one per cell for TEXT), values as in reader_basic_elements',
-       variants=[{'SEQ': k} for k in range(7)], unwind=45, timeout=900, mem_gb=14, wrap_files=True, nvec=8, flags=['--max-field-sensitivity-array-size', '450']),
+       variants=[{'SEQ': k} for k in range(9)], unwind=45, timeout=900, mem_gb=14, wrap_files=True, nvec=8, flags=['--max-field-sensitivity-array-size', '450']),
     Ob('aref_export', 'C03/aref_export.c', ['_ZNK5gdstk9Reference6to_gdsEP8_IO_FILEd'], model='ie', defines={'IE_BITS': 14, 'REAL_TOL': 1},
        stubs=['_ZN5gdstk24is_multiple_of_pi_over_2EdRl', '_ZN5gdstk22gdsii_real_from_doubleEd'], rename={'strlen': 'my_strlen1'},
        what='Reference::to_gds writes an array reference whose COLROW and three corner points denote exactly the repetition\'s instance positions, column pitch along the rotated x axis and row pitch along the rotated y axis (incl. the branch that exchanges columns and rows)',
